@@ -84,3 +84,25 @@ Theorem C09_map_resurrection_refuted_witness :
                        ∧ read_or (or_apply a2 op3) 0 = Some [9] ∧ or_merge p2 a2 ≠ or_apply p2 op2.
 Proof. exact map_T2_resurrection_refuted. Qed.
 Print Assumptions C09_map_resurrection_refuted_witness.
+
+From Crdt Require Import model.Map spec.System spec.OrswotSpec spec.OrswotSystem spec.MapSpec spec.MapSystem proofs.OrswotSystem proofs.MapKeys.
+
+(** Map, key level: a duplicate op or a stale state changes neither the key set nor any
+    context; a key whose every applied update is covered by an applied remove is absent *)
+Theorem C09_map_keys_absorb {V O E} (vo : valops V O E) (H : list (oprec (mop O))) :
+  owfH (habs H) ->
+  forall (s : cmap V) (K : gset nat) (i : nat) (r : oprec (mop O)) (s' : cmap V) (K' : gset nat),
+    mapreach vo H s K -> mapreach vo H s' K' ->
+    (H !! i = Some r -> i ∈ K -> kabs (mapply vo s (op_val r)) = kabs s)
+    /\ (K' ⊆ K -> kabs (mmerge vo s s') = kabs s).
+Proof. exact (map_keys_absorb vo H). Qed.
+Print Assumptions C09_map_keys_absorb.
+
+Theorem C09_map_removed_key_stays_absent {V O E} (vo : valops V O E) (H : list (oprec (mop O))) :
+  owfH (habs H) ->
+  forall (s : cmap V) (K : gset nat) (k : N), mapreach vo H s K ->
+    (forall (d : dot) (o : O), MUp d k o ∈ known_ops H K ->
+       exists (c : gmap N N) (ks : gset N), MRm c ks ∈ known_ops H K /\ k ∈ ks /\ dcounter d <= vget c (dactor d)) ->
+    mentries s !! k = None /\ rval (mget s k) = None /\ rm_clock (mget s k) = ∅.
+Proof. exact (map_removed_key_stays_absent' vo H). Qed.
+Print Assumptions C09_map_removed_key_stays_absent.
